@@ -604,6 +604,241 @@ def gen_decorators(run, C, tools):
                                           cfl(list(rec[0][0])), cfl(list(r))), case)
 
 
+# ----------------------------------------------------------------------------------------------
+# decorators as STATE MACHINES: initial parameter, then setter calls, evaluation after every step.
+# "feeds the wrapped function exactly the inversely transformed individual" is checked with the
+# CURRENT parameters at every step (a cached flag or a stale reciprocal computed in __init__ and
+# not refreshed by the setter shows up here).
+# ----------------------------------------------------------------------------------------------
+PARAM_KINDS = ("neutral", "generic", "negative", "mixed")
+
+
+def make_param(rng, dec, kind, n, nobj=3):
+    """parameter of decorator `dec` of the given kind, as plain Python data (lists / nested lists / None)"""
+    import numpy
+    if dec == "translate":
+        if kind == "neutral":
+            return [0.0] * n
+        if kind == "generic":
+            return [rng.uniform(-10, 10) for _ in range(n)]
+        if kind == "negative":
+            return [-rng.uniform(0.1, 10) for _ in range(n)]
+        v = [rng.choice([0.0, rng.uniform(-10, 10)]) for _ in range(n)]
+        if n > 1 and all(t == 0.0 for t in v):
+            v[-1] = 2.5
+        return v
+    if dec == "scale":
+        if kind == "neutral":
+            return [1.0] * n
+        if kind == "generic":
+            return [rng.uniform(0.1, 10) for _ in range(n)]
+        if kind == "negative":
+            return [-rng.uniform(0.1, 10) for _ in range(n)]
+        return [rng.choice([1.0, rng.choice([-1, 1]) * rng.uniform(0.1, 10)]) for _ in range(n)]
+    if dec == "rotate":
+        if kind == "neutral":
+            return numpy.identity(n).tolist()
+        nrng = numpy.random.RandomState(rng.randrange(2 ** 31))
+        q, _ = numpy.linalg.qr(nrng.random_sample((n, n)))
+        if kind == "generic":
+            return q.tolist()
+        if kind == "negative":
+            return (-q).tolist()
+        m = numpy.identity(n)             # identity except for one plane rotation / a swap
+        if n >= 2:
+            i, j = rng.sample(range(n), 2)
+            a = rng.uniform(0.1, 3.0)
+            m[i, i], m[i, j], m[j, i], m[j, j] = math.cos(a), -math.sin(a), math.sin(a), math.cos(a)
+        return m.tolist()
+    if dec == "noise":
+        if kind == "neutral":
+            return None
+        if kind == "generic":
+            return [rng.gauss(0, 1) for _ in range(nobj)] if rng.random() < 0.6 else ("single", rng.gauss(0, 1))
+        if kind == "negative":
+            return [-abs(rng.gauss(0, 1)) - 0.1 for _ in range(nobj)]
+        v = [rng.choice([None, rng.gauss(0, 1)]) for _ in range(nobj)]
+        if all(t is None for t in v):
+            v[0] = 0.75
+        return v
+    raise ValueError(dec)
+
+
+def noise_arg(p):
+    """the object handed to tools.noise / evaluate.noise, and the per-objective draws the oracle expects"""
+    if p is None:
+        return None, [None, None, None]
+    if isinstance(p, (tuple, list)) and len(p) == 2 and p[0] == "single":
+        d = p[1]
+        return (lambda: d), [d, d, d]
+    return [None if d is None else (lambda d=d: d) for d in p], list(p)
+
+
+class DecState(object):
+    """one decorated recording function (possibly two decorators deep) and the oracle's view of its parameters"""
+
+    def __init__(self, run, C, tools, stack, params, corpus=None):
+        import numpy
+        self.run, self.C, self.tools, self.numpy = run, C, tools, numpy
+        self.stack = list(stack)               # outermost first, e.g. ["translate", "scale"]
+        self.params = dict(params)             # decorator name -> current parameter
+        self.rec = []
+        self.history = [("init", d, params[d]) for d in self.stack]
+        self.corpus = corpus
+
+        def inner(ind, *a, **k):
+            self.rec.append((ind, a, k))
+            return (1.0, 2.0, 3.0)
+        f = inner
+        for d in reversed(self.stack):
+            f = getattr(tools, d)(self.arg(d, params[d]))(f)
+        self.f = f
+
+    def arg(self, d, p):
+        if d == "rotate":
+            return self.numpy.array(p)
+        if d == "noise":
+            return noise_arg(p)[0]
+        return list(p)
+
+    def set(self, d, p):
+        st, r = call(getattr(self.f, d), self.arg(d, p))
+        self.history.append(("set", d, p))
+        if st != "ok":
+            self.run.oracle_violation("%s setter raises: %s" % (d, r), self.case([], None))
+            return False
+        self.params[d] = p
+        return True
+
+    def case(self, x, obs):
+        return {"kind": "decorator-sequence", "stack": self.stack, "history": [list(h) for h in self.history], "x": x,
+                "observed": repr(obs), "corpus": self.corpus}
+
+    def evaluate(self, x):
+        run, C = self.run, self.C
+        del self.rec[:]
+        xin = list(x)
+        st, r = call(self.f, xin, 5, kw=1)
+        case = self.case(x, (self.rec, r))
+        if st != "ok" or len(self.rec) != 1:
+            run.oracle_violation("%s wrapper failed (%s) or called the wrapped function %d times" % ("/".join(self.stack), r, len(self.rec)), case)
+            return
+        fed_obj, a, k = self.rec[0]
+        if a != (5,) or k != {"kw": 1}:
+            run.oracle_violation("%s does not pass extra arguments through" % "/".join(self.stack), case)
+        fed = [float(v) for v in fed_obj]
+        # result: unchanged, except for noise
+        want_r = (1.0, 2.0, 3.0)
+        if "noise" in self.stack:
+            draws = noise_arg(self.params["noise"])[1]
+            want_r = tuple(b if d is None else b + d for b, d in zip(want_r, draws))
+        if tuple(r) != want_r:
+            run.oracle_violation("%s returns %r, expected %r with the current parameters" % ("/".join(self.stack), r, want_r), case)
+        # argument: the inverse transforms with the CURRENT parameters, outermost first
+        n = len(x)
+        ok = True
+        if "rotate" in self.stack:
+            # rotate is outermost here: fed = Minv x (- t); check M . (fed + t) = x
+            back = list(fed)
+            if "translate" in self.stack:
+                back = [b + t for b, t in zip(back, self.params["translate"])]
+            M = self.params["rotate"]
+            mx = [math.fsum(M[i][j] * back[j] for j in range(n)) for i in range(n)]
+            ok = len(fed) == n and all(abs(u - v) <= 1e-7 * (1 + abs(v)) for u, v in zip(mx, x))
+            want = "the vector y with M.(y%s) = individual" % (" + t" if "translate" in self.stack else "")
+        else:
+            cur = [Fraction(v) for v in x]
+            for d in self.stack:
+                if d == "translate":
+                    cur = [u - Fraction(t) for u, t in zip(cur, self.params[d])]
+                elif d == "scale":
+                    cur = [u / Fraction(t) for u, t in zip(cur, self.params[d])]
+            ok = len(fed) == len(cur) and all(O.close(g, float(w)) for g, w in zip(fed, cur))
+            want = [float(w) for w in cur]
+            if self.stack == ["noise"] and (fed_obj is not xin or xin != list(x)):
+                ok = False
+        if not ok:
+            run.oracle_violation("%s feeds %r after %r; the inversely transformed individual (current parameters) is %r"
+                                 % ("/".join(self.stack), fed, self.history[-1], want), case)
+            return
+        # Coq side for the single decorators
+        if self.stack == ["translate"]:
+            C.add("CTranslate %s %s %s" % (cfl(self.params["translate"]), cfl(x), cfl(fed)), case)
+        elif self.stack == ["scale"]:
+            stored = [float(v) for v in self.f.scale.__self__.factor]
+            C.add("CScale %s %s %s %s" % (cfl(self.params["scale"]), cfl(x), cfl(stored), cfl(fed)), case)
+        elif self.stack == ["rotate"]:
+            minv = [[float(v) for v in row] for row in self.f.rotate.__self__.matrix]
+            M = self.params["rotate"]
+            prod = [[math.fsum(minv[i][q] * M[q][j] for q in range(n)) for j in range(n)] for i in range(n)]
+            if any(abs(prod[i][j] - (1.0 if i == j else 0.0)) > 1e-8 for i in range(n) for j in range(n)):
+                run.oracle_violation("rotate: the stored matrix is not the inverse of the CURRENT rotation matrix", case)
+                return
+            C.add("CRotate %s %s %s" % (cmat(minv), cfl(x), cfl(fed)), case)
+        elif self.stack == ["noise"]:
+            draws = noise_arg(self.params["noise"])[1]
+            C.add("CNoise %s %s %s %s %s" % (clist([copt(d, cfloat) for d in draws]), cfl(x), cfl([1.0, 2.0, 3.0]),
+                                              cfl(fed), cfl(list(r))), case)
+        else:
+            run.note_case(case)
+
+
+def run_decorator_sequence(run, C, tools, stack, init, steps, xs, corpus=None):
+    """init: {decorator: parameter}; steps: [(decorator, parameter)]; xs: one individual per evaluation (init + every step)"""
+    st, S = call(DecState, run, C, tools, stack, init, corpus)
+    if st != "ok":
+        run.oracle_violation("decorating with %r raises: %s" % (init, S), {"kind": "decorator-sequence", "stack": stack, "init": repr(init)})
+        return
+    S.evaluate(xs[0])
+    for i, (d, p) in enumerate(steps):
+        if not S.set(d, p):
+            return
+        S.evaluate(xs[(i + 1) % len(xs)])
+
+
+def gen_decorator_sequences(run, C, tools):
+    rng = run.rng
+    # corpus first
+    cdir = os.path.join(vlib.VERIF, "corpus")
+    if os.path.isdir(cdir):
+        import json
+        for fn in sorted(os.listdir(cdir)):
+            if fn.startswith("C20_") and fn.endswith(".json"):
+                c = json.load(open(os.path.join(cdir, fn)))
+                if c.get("kind") == "decorator-sequence":
+                    run_decorator_sequence(run, C, tools, c["stack"], c["init"], [tuple(s) for s in c["steps"]], c["xs"], corpus=fn)
+    singles = ["translate", "scale", "rotate", "noise"]
+    # every (initial kind, next kind) pair for every decorator, then longer random sequences
+    for d in singles:
+        for k0 in PARAM_KINDS:
+            for k1 in PARAM_KINDS:
+                for rep in range(run.scale(1, 6)):
+                    n = rng.randint(1, 6) if d == "rotate" else rng.randint(1, 12)
+                    nsteps = 1 if rep == 0 else rng.randint(1, 3)
+                    kinds = [k1] + [rng.choice(PARAM_KINDS) for _ in range(nsteps - 1)]
+                    init = {d: make_param(rng, d, k0, n)}
+                    steps = [(d, make_param(rng, d, k, n)) for k in kinds]
+                    xs = [[rng.uniform(-10, 10) for _ in range(n)] for _ in range(2)]
+                    # the individual equal to the installed translation vector: the wrapped function must see zeros
+                    if d == "translate" and rep == 0:
+                        xs = [list(steps[0][1]), list(steps[0][1])]
+                    run_decorator_sequence(run, C, tools, [d], init, steps, xs)
+    # two decorators deep, setters called on the outer wrapper
+    for stack in (["translate", "scale"], ["scale", "translate"], ["rotate", "translate"]):
+        for k0 in PARAM_KINDS:
+            for k1 in PARAM_KINDS:
+                for rep in range(run.scale(1, 4)):
+                    n = rng.randint(1, 6)
+                    init = {stack[0]: make_param(rng, stack[0], k0, n), stack[1]: make_param(rng, stack[1], k1, n)}
+                    steps = []
+                    for _ in range(rng.randint(1, 3)):
+                        d = rng.choice(stack)
+                        steps.append((d, make_param(rng, d, rng.choice(PARAM_KINDS), n)))
+                    xs = [[rng.uniform(-10, 10) for _ in range(n)] for _ in range(2)]
+                    run_decorator_sequence(run, C, tools, stack, init, steps, xs)
+
+
+
 class RandomProxy(object):
     """Logging proxy around random.Random handed to MovingPeaks(random=...)"""
 
@@ -821,7 +1056,7 @@ def main(run):
         run.tier = "thorough"
         try:
             D = Cases(run, meta)
-            for g, mod in ((gen_single, B), (gen_multi, B), (gen_gp, gp), (gen_binary, binary), (gen_decorators, tools),
+            for g, mod in ((gen_single, B), (gen_multi, B), (gen_gp, gp), (gen_binary, binary), (gen_decorators, tools), (gen_decorator_sequences, tools),
                            (gen_movingpeaks, movingpeaks)):
                 g(run, D, mod)
                 if run.oracle_viol:
@@ -835,6 +1070,7 @@ def main(run):
     gen_gp(run, C, gp)
     gen_binary(run, C, binary)
     gen_decorators(run, C, tools)
+    gen_decorator_sequences(run, C, tools)
     gen_movingpeaks(run, C, movingpeaks)
     gen_rand(run, B)
     run.correspond("all", "C20", C.terms, C.cases, shard=run.scale(150, 300),
